@@ -115,7 +115,7 @@ func (p *parser) node() *Node {
 		return n
 	}
 	n.Kind = string(p.s[p.i])
-	if !strings.Contains("XYPWUMTZ", n.Kind) {
+	if !strings.Contains("XYPWUMTZKJ", n.Kind) {
 		p.fail("unknown kind")
 	}
 	p.i++
@@ -131,6 +131,10 @@ func kindIO(k string) (in, out string) {
 		return "S", "L"
 	case "Z":
 		return "", ""
+	case "K": // passthrough with an output key: wraps its input into a map
+		return "L", "D"
+	case "J": // passthrough with an input key: unwraps the map again
+		return "D", "L"
 	}
 	return "L", "L"
 }
@@ -222,6 +226,9 @@ func (a Atom) class() string {
 var optTypes = []string{"X", "Y", "M", "T", "CB"}
 
 // accepts: a leaf of kind k takes component options of type t.
+// isPass: pass-through nodes, plain (Z) or keyed (K: WithOutputKey, J: WithInputKey).
+func isPass(kind string) bool { return kind == "Z" || kind == "K" || kind == "J" }
+
 func accepts(kind, t string) bool { return kind == t && strings.Contains("XYMT", kind) }
 
 type Menu struct {
@@ -369,6 +376,7 @@ var quickSpecs = []string{
 	"C[a:X g:C[a:X b:Y]]",              // chain in chain
 	"F[a:X g:F[a:Y b:M c:T]]",          // workflow in workflow
 	"G[a:X p:Z g:G[p:Z a:X]]",          // passthrough nodes (non-graph nodes without an option type)
+	"G[a:X k:K j:J b:Y]",               // keyed passthrough nodes (output key / input key): passthroughs like any other
 }
 
 var thoroughSpecs = []string{
